@@ -275,9 +275,30 @@ class DocGen:
                 for i in range(k):
                     m = self.fresh()
                     last = i == k - 1
-                    self.decl("x%d" % m, "x%d%s" % (m, "" if last else ","), indent + "  ", can_trail=True)
-                self.lines.append(indent + "};")
-                self.after_trailing = False
+                    val = rng.choice(["", "", " = 1", " = 1 << 2", " = f(1, 2)", " = (A | B)"])
+                    sep = "" if (last and rng.random() < 0.7) else ","
+                    self.decl("x%d" % m, "x%d%s%s" % (m, val, sep), indent + "  ", can_trail=True)
+                # the closing brace, alone or followed by declarators of the enum type; a comment behind their ';' trails the
+                # first declarator -- never an enumerator
+                q = rng.random()
+                if q < 0.5:
+                    self.lines.append(indent + "};")
+                    self.after_trailing = False
+                else:
+                    ev = self.fresh()
+                    two = rng.random() < 0.3
+                    text = "} ev%d%s;" % (ev, (", *pev%d" % ev) if two else "")
+                    if rng.random() < 0.7:
+                        src, exp = doc_text(rng.choice(["///<", "///", "//!", "/**"]), "t%d" % self.fresh())
+                        self.lines.append(indent + text + " " + src[0])
+                        self.expect["ev%d" % ev] = exp
+                        self.after_trailing = True
+                    else:
+                        self.lines.append(indent + text)
+                        self.expect["ev%d" % ev] = None
+                        self.after_trailing = False
+                    if two:
+                        self.expect["pev%d" % ev] = None
             elif r < 0.8:
                 key = rng.choice(["struct", "class"])
                 self.decl("C%d" % n, "%s C%d {" % (key, n), indent)
